@@ -164,8 +164,10 @@ func runRangeCase(c gCase) gEvent {
 				flt = &jsonapi.Filter{Field: "x", Op: c.Flt.Op, Val: ordValue(c.KX, c.NX, c.Flt.CV, c.Table)}
 			}
 			run := gRun{Order: order, Pages: [][]string{}, After: []string{}, NonNil: true}
+			// one id list and one rule list for all the pages of a walk, as a caller paging through has
+			idList, ruleList := append([]string{}, c.IDs...), append([]string{}, rules...)
 			for num := 0; num < c.Pages; num++ {
-				page := jsonapi.Range(col, append([]string{}, c.IDs...), flt, append([]string{}, rules...), c.size(), uint(num))
+				page := jsonapi.Range(col, idList, flt, ruleList, c.size(), uint(num))
 				ids := []string{}
 				if page == nil || reflectIsNil(page) {
 					run.NonNil = false
